@@ -77,7 +77,8 @@ def gen_arg(cfg, m, rng, tr):
 
 
 COMP = Component(spec="AsyncMem", name="AsyncMemoryBank", build=build, methods=methods, has_arg=lambda m: True,
-                 gen_arg=gen_arg, tracker=Tracker, module=__name__, impl_cfg=full_cfg)
+                 gen_arg=gen_arg, tracker=Tracker, module=__name__, impl_cfg=full_cfg,
+                 shadow=methods)
 
 
 def trace_cfgs(tier, seed):
